@@ -611,7 +611,7 @@ def _setup_linear_problem(A: LinearOperator, B: torch.Tensor,
             # x: (ncols, *BX, nr, 1)
             ATx = A.rmm(x)
             MTx = M.rmm(x) if M is not None else x
-            MTxE = MTx * E_new
+            MTxE = MTx * E_new.conj()
             return ATx - MTxE
 
         col_swapped = True
@@ -619,6 +619,9 @@ def _setup_linear_problem(A: LinearOperator, B: torch.Tensor,
     # estimate if it's posdef with power iteration
     if need_hermit:
         is_hermit = A.is_hermitian and (M is None or M.is_hermitian)
+        if E is not None and torch.is_complex(E) and not bool(torch.all(E.imag == 0)):
+            # A - M E is not hermitian if E is not real
+            is_hermit = False
         if not is_hermit:
             # set posdef to False to make the operator becomes AT * A so it is
             # hermitian
